@@ -9,6 +9,7 @@ use std::io;
 use std::io::ErrorKind;
 use std::net::IpAddr;
 use std::str::FromStr;
+use std::sync::atomic::{AtomicBool, Ordering};
 use std::sync::Arc;
 use tokio::io::{AsyncRead, AsyncReadExt, AsyncWrite, AsyncWriteExt};
 use tokio::sync::{mpsc, Notify};
@@ -29,6 +30,8 @@ pub(crate) struct Http1Codec<IO> {
     upload_rx: Option<mpsc::Receiver<Bytes>>,
     /// Sends messages to [`StreamSource.upload_rx`]
     upload_tx: mpsc::Sender<Bytes>,
+    /// See [`StreamSource.upload_finished`]
+    upload_finished: Arc<AtomicBool>,
     upload_buffer_size: usize,
     parent_id_chain: log_utils::IdChain<u64>,
     next_request_id: std::ops::RangeFrom<u64>,
@@ -62,6 +65,9 @@ struct StreamSource {
     client_address: IpAddr,
     /// Receives messages from [`Http1Codec.upload_tx`]
     upload_rx: mpsc::Receiver<Bytes>,
+    /// Raised by [`Http1Codec`] when the session is shut down in an orderly way. If the codec
+    /// goes away without it, the connection has failed and the stream did not come to its end.
+    upload_finished: Arc<AtomicBool>,
     id: log_utils::IdChain<u64>,
 }
 
@@ -102,6 +108,7 @@ where
             download_eof: Arc::new(Notify::new()),
             upload_rx: Some(upload_rx),
             upload_tx,
+            upload_finished: Arc::new(AtomicBool::new(false)),
             // the metrics listener speaks HTTP/1.1 whether or not clients may
             upload_buffer_size: core_settings
                 .listen_protocols
@@ -162,6 +169,7 @@ where
                         request,
                         client_address: self.transport_stream.peer_addr()?.ip(),
                         upload_rx: self.upload_rx.take().unwrap(),
+                        upload_finished: self.upload_finished.clone(),
                         id: id.clone(),
                     },
                     sink: StreamSink {
@@ -256,6 +264,7 @@ where
     }
 
     async fn graceful_shutdown(&mut self) -> io::Result<()> {
+        self.upload_finished.store(true, Ordering::Release);
         if let Ok(mut chunk) = self.download_rx.try_recv() {
             self.transport_stream.write_all_buf(&mut chunk).await?;
         }
@@ -385,7 +394,9 @@ impl pipe::Source for StreamSource {
 
     async fn read(&mut self) -> io::Result<pipe::Data> {
         match self.upload_rx.recv().await {
-            None => Ok(pipe::Data::Eof),
+            None if self.upload_finished.load(Ordering::Acquire) => Ok(pipe::Data::Eof),
+            // the codec is gone without having shut the session down: the connection failed
+            None => Err(io::Error::from(ErrorKind::UnexpectedEof)),
             Some(bytes) => Ok(pipe::Data::Chunk(bytes)),
         }
     }
